@@ -28,6 +28,8 @@ namespace worlds
     bool water = false;                  // 'tian water content' composition models (temperature- and pressure-dependent) on the oceanic plate and the slab
     bool long_traces = false;            // three small faults and a small slab on long traces in different directions (along x, along y, diagonal)
     bool many_depth_points = false;      // the continental plate's max depth is given at 20 points in general position
+    unsigned depth_seed = 0;             // added to the seeds of the pseudo-random depth surfaces of many_depth_points (another set of surfaces over the same polygons)
+    bool sparse = false;                 // features lack whole kinds of models (plume: no velocity / grains models, slab: no composition / velocity, fault: no temperature / grains, continental plate: no grains, oceanic plate: no velocity)
     bool partial = false;                // features only partly replace what the features before them left: 'add' operations, slab / fault models limited to part of the thickness
   };
 
@@ -40,6 +42,17 @@ namespace worlds
         s += (i ? "," : "") + std::string(i == 0 ? "0.25" : "-1");
       }
     return "{\"model\":\"uniform\",\"compositions\":" + comps + ",\"Euler angles z-x-z\":" + e + "],\"grain sizes\":" + s + "]}";
+  }
+
+  // removes the whole entry ,"<kind> models":[...] from a feature
+  inline std::string strip_models(std::string f, const std::string &kind)
+  {
+    const std::string key = ",\"" + kind + " models\":[";
+    const size_t a = f.find(key);
+    if (a == std::string::npos) return f;
+    size_t i = a + key.size(); int depth = 1;
+    for (; i < f.size() && depth > 0; ++i) { if (f[i] == '[') ++depth; else if (f[i] == ']') --depth; }
+    return f.erase(a, i - a);
   }
 
   // s: lattice unit (1e5 m cartesian, 1 degree spherical)
@@ -55,7 +68,7 @@ namespace worlds
     auto many_points = [&](double x0, double x1, double y0, double y1, double v0, double v1, unsigned seed, const std::string &dflt)
     {
       std::string out = "[[" + dflt + "]";
-      unsigned long long st = seed;
+      unsigned long long st = seed + o.depth_seed;
       auto rnd = [&]() { st = st * 6364136223846793005ULL + 1442695040888963407ULL; return static_cast<double>((st >> 33) % 1000003) / 1000003.0; };
       for (int i = 0; i < 30; ++i)
         {
@@ -116,6 +129,14 @@ namespace worlds
                   ",\"temperature models\":[{\"model\":\"mass conserving\",\"density\":3300,\"spreading velocity\":0.03,\"subducting velocity\":0.04,\"ridge coordinates\":[[" + P(4.5,-6) + "," + P(4.5,6) + "]],\"coupling depth\":6e4,\"taper distance\":4e4,"
                   "\"min distance slab top\":-5e4,\"max distance slab top\":9e4,\"apply spline\":true,\"number of points in spline\":5}]"
                   ",\"composition models\":[{\"model\":\"uniform\",\"compositions\":[2]}]}");
+    if (o.sparse)
+      {
+        f[1] = strip_models(f[1], "grains");
+        f[2] = strip_models(f[2], "velocity");
+        f[3] = strip_models(strip_models(f[3], "velocity"), "grains");
+        f[4] = strip_models(strip_models(f[4], "composition"), "velocity");
+        f[5] = strip_models(strip_models(f[5], "temperature"), "grains");
+      }
     if (o.area_only) f.resize(3);
     if (o.long_traces)
       {
